@@ -326,6 +326,13 @@ class IntervalTier(textgrid_tier.TextgridTier):
         matchList = self.crop(start, end, CropCollision.LAX, False).entries
         newTier = self.new()
 
+        if doShrink is True:
+            # Only what lies inside the tier's span can be cut out of it
+            start = max(start, self.minTimestamp)
+            end = min(end, self.maxTimestamp)
+            if start >= end:
+                return newTier
+
         if len(matchList) == 0:
             pass
         else:
